@@ -552,11 +552,13 @@ def run(run, tier):
     except L.RhsRefused as e:
         broken.append(('translator', 'translate/rhs2v.py refuses the current EoN/analytic.py: %s' % e))
     # 2. theorems over the generated file
-    props = C.check_props('C08') if table else {'ok': False, 'theorems': [], 'axioms': {}, 'log': 'translator refused'}
-    if table and not props['ok']:
+    from . import rhs2_spec as S2
+    regen2 = S2.regen_phase()
+    props = (C.check_props('C08') if regen2 is None else S2.REFUSED_PROPS(regen2)) if table else {'ok': False, 'theorems': [], 'axioms': {}, 'log': 'translator refused'}
+    if table and not props['ok'] and regen2 is None:
         m = None
         import re
-        mm = re.findall(r'File "\./(Proofs/[A-Za-z]+\.v|Props/[A-Za-z0-9]+\.v|Model/[A-Za-z]+\.v)", line (\d+)', props.get('log', ''))
+        mm = re.findall(r'File "\./((?:Proofs|Props|Model|Gen)/[A-Za-z0-9]+\.v)", line (\d+)', props.get('log', ''))
         where = ''
         if mm:
             f, ln = mm[-1]
@@ -597,7 +599,7 @@ def run(run, tier):
     # 4. numerical version of each theorem on the Python right-hand sides + oracles on the entry points
     found = 0; skipped = 0; stats = {}
     from . import rhs2_spec as S2
-    blk = S2.check_block(run, EoN, 'C08', tier, report)           # 2-D / node-level systems: own RNG stream, does not shift the cases below
+    blk = S2.check_block(run, EoN, 'C08', tier, report, regen2)           # 2-D / node-level systems: own RNG stream, does not shift the cases below
     broken += blk['broken']; found += blk['found']; n_eval += blk['n_eval']; n_distinct += blk['n_distinct']; samples += blk['samples']; dist.update(blk['dist'])
     sp = spec_points(rng, 40 if thorough else 8)
     for p in sp:
@@ -650,9 +652,9 @@ def run(run, tier):
                                                               'tau=0 / gamma=0 for pref_mix, heterogeneous_meanfield gamma=0; the curves of every graph entry point at tau=0 / gamma=0'],
                                'proved_over_hand_written_model': ['tau=0 and gamma=0 right-hand-side identities of individual_based, pair_based, heterogeneous_pairwise, effective_degree (SIS and SIR)',
                                                                   'pair_based_tree_exact_partial: single edge = marginals of the 9-state master equation, closure sums empty'],
-                               'hand_written_model': 'coq/Model/Rhs2D.v (component rhs2), tied by point evaluation',
+                               'hand_written_model': 'coq/Model/Rhs2D.v (component rhs2): proved equal to the definitions generated from the source (Props: *_generated_*), both tied by point evaluation',
                                'cited': ['Picard-Lindeloef uniqueness (vector-field identity => curves coincide)', 'I\' = -gamma I => I = I0 exp(-gamma t)'],
-                               'translator': 'translate/rhs2v.py (fail-closed); generated file coq/Gen/Rhs.v'})
+                               'translator': 'translate/rhs2v.py (fail-closed); generated file coq/Gen/Rhs.v; translate/rhs2d2v.py (fail-closed); generated file coq/Gen/Rhs2.v'})
     run.assumptions += ['Model/Rhs2D.v is a hand-written model of the 2-D / node-level right-hand sides; its precondition is index_of_node = enumerate(nodelist) over a simple graph (what every caller in analytic.py builds)',
                         'numpy elementwise/broadcast/slice/dot semantics and scipy.ndimage.shift(a,-1) as modelled in Model/Vec.v (tied by point evaluation)',
                         'scipy.integrate.odeint returns the ODE solution on the grid to tolerance',
